@@ -174,6 +174,9 @@ class Folder:
         # (module name, qualname) -> python callable(folder, args, kwargs)
         self.summaries = summaries or {}
         self.ignore_calls = ignore_calls or (lambda dotted: False)
+        # values of module-level globals: evaluated once per folder, so that
+        # module-level containers keep what functions store into them
+        self.gstate = {}
 
     # ------------------------------------------------------------ driver
     def paths(self, fn):
@@ -628,7 +631,10 @@ class Folder:
             m, name = r[1], r[2]
             vals = m.globals.get(name, [])
             if len(vals) == 1:
-                return self.expr(vals[0], {}, m, 0)
+                gk = (m.name, name)
+                if gk not in self.gstate:
+                    self.gstate[gk] = self.expr(vals[0], {}, m, 0)
+                return self.gstate[gk]
             raise AnalysisError(
                 f'folding: module global {m.name}.{name} has {len(vals)} '
                 'assignments')
